@@ -133,6 +133,8 @@ impl<'tcx> Cx<'tcx> {
             ty::Adt(def, args) => {
                 if self.is_dlt_message(def.did()) {
                     true
+                } else if self.is_borrowing_adt(def.did()) {
+                    false
                 } else {
                     let mut any = false;
                     for a in args.iter() {
@@ -180,6 +182,23 @@ impl<'tcx> Cx<'tcx> {
         };
         seen.remove(&t);
         r
+    }
+    /// std iterator/guard types that only borrow their element type
+    fn is_borrowing_adt(&self, did: DefId) -> bool {
+        if did.is_local() {
+            return false;
+        }
+        let p = ty::print::with_no_trimmed_paths!(self.tcx.def_path_str(did));
+        p.ends_with("::Iter")
+            || p.ends_with("::IterMut")
+            || p.ends_with("::Ref")
+            || p.ends_with("::RefMut")
+            || p.ends_with("Guard")
+            || p.ends_with("::ReadHandle")
+            || p.ends_with("::WriteHandle")
+            || p.ends_with("::Sender")
+            || p.ends_with("::SyncSender")
+            || p.ends_with("::PhantomData")
     }
     fn adt_is_adlt(&self, did: DefId) -> bool {
         self.tcx.crate_name(did.krate).as_str() == "adlt"
